@@ -180,10 +180,14 @@ def r9g(fb, rep):
     """a send that reports success has enqueued the value: exactly-once delivery starts with an honest result"""
     R = "R9g"
     rep.rule(R, "channel send reports Ok only after the value was enqueued, and Err when the copy into the owner's heap failed")
-    b = fb.body("gluon_vm::channel::send")
-    if b is None:
-        rep.anchor_lost(R, "channel::send")
+    # found by role: the primitive that both copies into the owner's heap and enqueues
+    cands = [x for x in fb.bodies.values() if x.crate.name == "gluon_vm" and x.kind == "fn"
+             and any(c.res.endswith("channel::Sender::<T>::send") for c in x.calls())
+             and any(c.res.endswith("::deep_clone_value") for c in x.calls())]
+    if len(cands) != 1:
+        rep.anchor_lost(R, "the send primitive (deep_clone_value + Sender::send): %d candidates" % len(cands))
         return
+    b = cands[0]
     enq = [c for c in b.calls() if c.res.endswith("channel::Sender::<T>::send")]
     clone = [c for c in b.calls() if c.res.endswith("ThreadInternal>::deep_clone_value") or c.res.endswith("ThreadInternal::deep_clone_value")]
     oks = set(flow.blocks_constructing(b, "core::result::Result", "Ok"))
